@@ -265,6 +265,7 @@ SET_OF_encode_oer(const asn_TYPE_descriptor_t *td,
     for(n = 0; n < list->count; n++) {
         void *memb_ptr = list->array[n];
         asn_enc_rval_t er;
+        if(!memb_ptr) ASN__ENCODE_FAILED;
         er = elm->type->op->oer_encoder(
             elm->type, elm->encoding_constraints.oer_constraints, memb_ptr, cb,
             app_key);
